@@ -148,6 +148,8 @@ fn main() {
             let mut o = op("new", 1);
             let choice = if prof.calm > 0.5 { rng.gen_range(1..10).max(2) } else { rng.gen_range(0..10) };
             let choice = if prof.calm > 0.5 && choice == 3 { 4 } else { choice };
+            // constant-length churn needs a limit sized for `fit` entries
+            let choice = if pname == "fifo" { 4 } else { choice };
             let max: i64 = match choice {
                 0 => 0,
                 1 => -1,
